@@ -80,6 +80,106 @@ def expected_real(res):
     return {"ino": ino, "ftbl": ftbl, "dsize": len(disk), "dcrc": zlib.crc32(bytes(disk))}
 
 
+# ---------------------------------------------------------------------------------------------------------------------
+# property-level judgement of a REAL result (no model involved): what C02 / C08 / C17 / C03 say about the block processor
+BSZ = 4 * U
+
+
+def _expand(raw):
+    """inverse of the scripted compressor"""
+    if len(raw) < 6 or raw[:4] != b"CMPR":
+        return None
+    out = b""
+    for i in range(raw[4]):
+        n, ch = raw[6 + 2 * i], raw[7 + 2 * i]
+        out += b"\0" * (n * U) if ch == ord("z") else bytes([0x80 | n]) + bytes([ch]) * (n * U - 1)
+    return out
+
+
+def read_back(real, fi):
+    """bytes of file fi as a reader would get them from the inode, the fragment table and the disk; None + reason if impossible"""
+    disk = bytes.fromhex(real.get("disk", ""))
+    ino = real["ino"][fi]
+    size, pos, out = ino["size"], ino["start"], b""
+    for (bsz, comp) in ino["blocks"]:
+        want = min(BSZ, size - len(out))
+        if bsz == 0:
+            blk = b"\0" * want
+        else:
+            raw = disk[pos:pos + bsz]
+            pos += bsz
+            if len(raw) != bsz:
+                return None, "block beyond the end of the data area"
+            blk = _expand(raw) if comp else raw
+            if blk is None or len(blk) != want:
+                return None, "block does not expand to %d bytes" % want
+        out += blk
+    if ino["fidx"] >= 0:
+        if ino["fidx"] >= len(real["ftbl"]):
+            return None, "fragment index out of range"
+        f = real["ftbl"][ino["fidx"]]
+        raw = disk[f["loc"]:f["loc"] + f["size"]]
+        blk = _expand(raw) if f["comp"] else raw
+        want = size - len(out)
+        if blk is None or ino["foff"] + want > len(blk):
+            return None, "fragment block does not hold the tail"
+        out += blk[ino["foff"]:ino["foff"] + want]
+    if len(out) != size:
+        return None, "inode describes %d of %d bytes" % (len(out), size)
+    return out, None
+
+
+def judge_real(inp, real):
+    """list of property-level problems of a real result for the input `inp` (list of file specs)"""
+    probs = []
+    if not real.get("disk") and real.get("dsize"):
+        return probs                                   # disk too large to be dumped: nothing to judge here
+    datas = []
+    for fi, spec in enumerate(inp):
+        atoms = [{"c": c, "n": 4} for c in spec["blocks"]] + list(spec["tail"])
+        want = data_bytes(atoms)
+        datas.append(want)
+        got, why = read_back(real, fi)
+        if got is None:
+            probs.append("file %d cannot be read back: %s" % (fi + 1, why))
+        elif got != want:
+            probs.append("file %d reads back different bytes" % (fi + 1))
+        ino = real["ino"][fi]
+        fl = set(spec["flags"])
+        for (bsz, comp) in ino["blocks"]:
+            if bsz > BSZ:
+                probs.append("file %d: stored block larger than the block size" % (fi + 1))
+        if "DONT_FRAGMENT" in fl and ino["fidx"] >= 0:
+            probs.append("file %d [dont_fragment] has its tail in a fragment block" % (fi + 1))
+        if "DONT_COMPRESS" in fl and any(c for (b, c) in ino["blocks"]):
+            probs.append("file %d [dont_compress] has a compressed block" % (fi + 1))
+        if "DONT_COMPRESS" in fl and ino["fidx"] >= 0 and ino["fidx"] < len(real["ftbl"]) and real["ftbl"][ino["fidx"]]["comp"]:
+            probs.append("file %d [dont_compress] has its tail in a compressed fragment block" % (fi + 1))
+        if "IGNORE_SPARSE" in fl and (ino["sparse"] != 0 or any(b == 0 for (b, c) in ino["blocks"])):
+            probs.append("file %d [nosparse] has a sparse block" % (fi + 1))
+    # dont_deduplicate: own storage; identical flag-free files: shared storage (per block run / per tail chunk)
+    for g, spec in enumerate(inp):
+        ig = real["ino"][g]
+        for h in range(g):
+            ih = real["ino"][h]
+            same_blocks = spec["blocks"] and inp[h]["blocks"] == spec["blocks"] and any(b for (b, c) in ig["blocks"])
+            if "DONT_DEDUP" in spec["flags"] and same_blocks and ig["start"] == ih["start"] and ig["blocks"] == ih["blocks"]:
+                probs.append("file %d [dont_deduplicate] shares its blocks with file %d" % (g + 1, h + 1))
+            if "DONT_DEDUP" in spec["flags"] and ig["fidx"] >= 0 and (ig["fidx"], ig["foff"]) == (ih["fidx"], ih["foff"]):
+                probs.append("file %d [dont_deduplicate] shares its tail with file %d" % (g + 1, h + 1))
+        if not spec["flags"] and datas[g] and any(not inp[h]["flags"] and datas[h] == datas[g] for h in range(g)):
+            if any(b for (b, c) in ig["blocks"]) and not any(inp[h]["blocks"] == spec["blocks"] and real["ino"][h]["start"] == ig["start"]
+                                                              and real["ino"][h]["blocks"] == ig["blocks"] for h in range(g)):
+                probs.append("file %d repeats an earlier file but its blocks are stored again" % (g + 1))
+            if ig["fidx"] >= 0 and not any(inp[h]["tail"] == spec["tail"] and (real["ino"][h]["fidx"], real["ino"][h]["foff"]) == (ig["fidx"], ig["foff"])
+                                           for h in range(g)):
+                probs.append("file %d repeats an earlier file but its tail is stored again" % (g + 1))
+    return probs
+
+
+DRIFT = []          # (input, what): real results that satisfy the properties but differ from the model's prediction (reported, never an alarm)
+
+
 def input_file(path, inp, Q, W, failids=()):
     with open(path, "w") as f:
         f.write("Q %d W %d CS %s\n" % (Q, W, " ".join(["%s=%d" % kv for kv in CSMAP.items() if kv[0] != "z"] + ["%s=-1" % c for c in failids])))
@@ -124,7 +224,11 @@ def normalize_real(r):
     return {"ino": r["ino"], "ftbl": r["ftbl"], "dsize": r["dsize"], "dcrc": r["dcrc"]}
 
 
-def replay(binp, work, emitted, workers=(1, 3), tag="bp", limit=None):
+def signature(r):
+    return json.dumps(normalize_real(r), sort_keys=True)
+
+
+def replay(binp, work, emitted, workers=(1, 3), tag="bp", limit=None, sigs=None):
     """returns list of mismatches: (input, what, predicted, real)"""
     jobs = []
     for k, e in enumerate(emitted if limit is None else emitted[:limit]):
@@ -148,17 +252,30 @@ def replay(binp, work, emitted, workers=(1, 3), tag="bp", limit=None):
 
     bad = []
     n = 0
+    sigs = {} if sigs is None else sigs
     with ThreadPoolExecutor(max_workers=16) as ex:
         for e, W, real in ex.map(do, jobs):
             n += 1
             if "crash" in real or real.get("err", 0) != 0 or "fatal" in real:
                 bad.append((e, W, "harness reports error/crash", None, real))
                 continue
+            key = json.dumps([e["input"], e["mb"]], sort_keys=True)
+            sigs.setdefault(key, {})[(tag, W)] = signature(real)
+            probs = judge_real(e["input"], real)
             exp = expected_real(e["res"])
             got = normalize_real(real)
-            if exp != got:
-                diff = [k for k in exp if exp[k] != got.get(k)]
-                bad.append((e, W, "layout differs from the specification in %s" % diff, exp, got))
+            if probs:
+                bad.append((e, W, "; ".join(probs[:3]), exp, got))
+            elif exp != got:
+                DRIFT.append((e["input"], "layout differs from the specification in %s" % [k for k in exp if exp[k] != got.get(k)]))
+    # determinism (C02): one input, one result - whatever the number of workers (and, through `sigs`, the build)
+    for e in (emitted if limit is None else emitted[:limit]):
+        key = json.dumps([e["input"], e["mb"]], sort_keys=True)
+        vals = sigs.get(key, {})
+        mine = {k: v for k, v in vals.items() if k[0] == tag}
+        if len(set(mine.values())) > 1:
+            ws = sorted(k[1] for k in mine)
+            bad.append((e, ws[-1], "results differ between worker counts %s" % ws, None, None))
     return n, bad
 
 
@@ -198,14 +315,22 @@ def replay_sched(binp, work, emitted, seeds, workers=2, tag="bs"):
 
     bad = []
     n = 0
+    seen = {}
     with ThreadPoolExecutor(max_workers=16) as ex:
         for e, sd, real in ex.map(do, jobs):
             n += 1
             if any(k in real for k in ("crash", "deadlock", "hang", "livelock", "fatal")) or real.get("err", 0) != 0:
                 bad.append((e, sd, "scheduled run ends in %s" % [k for k in real if k in ("crash", "deadlock", "hang", "livelock", "fatal", "err")], None, real))
                 continue
+            probs = judge_real(e["input"], real)
             exp = expected_real(e["res"])
             got = normalize_real(real)
-            if exp != got:
-                bad.append((e, sd, "layout differs from the specification in %s" % [k for k in exp if exp[k] != got.get(k)], exp, got))
+            key = json.dumps([e["input"], e["mb"]], sort_keys=True)
+            first = seen.setdefault(key, (sd, signature(real)))
+            if probs:
+                bad.append((e, sd, "; ".join(probs[:3]), exp, got))
+            elif first[1] != signature(real):
+                bad.append((e, sd, "result under schedule %d differs from the result under schedule %d" % (sd, first[0]), exp, got))
+            elif exp != got:
+                DRIFT.append((e["input"], "layout differs from the specification in %s" % [k for k in exp if exp[k] != got.get(k)]))
     return n, bad
